@@ -14,13 +14,13 @@
 From Coq Require Import List ZArith Lia Bool Arith.
 Import ListNotations.
 Require Import C01.Sums C01.Batch C01.Tensor C01.OpExpr C01.Model C01.Covered.
-Require Import C01.ProofsBase C01.ProofsAlg C01.ProofsKron C01.ProofsStruct C01.ProofsMore C01.ProofsPerm C01.ProofsRepeat C01.ProofsMul C01.ProofsSize C01.ProofsMain C01.ProofsTr.
+Require Import C01.ProofsBase C01.ProofsAlg C01.ProofsKron C01.ProofsStruct C01.ProofsMore C01.ProofsPerm C01.ProofsRepeat C01.ProofsMul C01.ProofsSize C01.ProofsCatBatch C01.ProofsMain C01.ProofsTr.
 Open Scope Z_scope.
 
 (* MAIN THEOREM (partial: restricted to [covered]).  For every operator expression of ANY nesting depth built
    from the covered classes, every matrix size and every batch shape: multiplying with the operator
    (t = false) or with its transpose (t = true) is multiplying with the dense matrix it denotes - values,
-   matrix shape and broadcast batch shape.  Missing constructors: see Covered.v. *)
+   matrix shape and broadcast batch shape.  Missing cells: see Covered.v. *)
 Theorem C01_matmul_partial : forall e, wf e -> covered e ->
   forall (t : bool) X, okrhs (mt t (denote e)) X -> mm t e X == dmm (mt t (denote e)) X.
 Proof. intros e HW HC t X HX. exact (mm_correct e HW HC t X HX). Qed.
@@ -47,6 +47,11 @@ Theorem C01_rmatmul_partial : forall e Y, wf e -> covered e ->
   nc Y = nr (denote e) -> bcompat (bsh Y) (bsh (denote e)) = true -> pub_rmatmul e Y == dmm Y (denote e).
 Proof. exact rmatmul_correct. Qed.
 
+(* v @ op for a 1-D v (represented by its n x 1 matrix; rmatmul = op.mT.matmul(v)) is D^T v, i.e. the row vector v D *)
+Theorem C01_rmatvec_partial : forall e v, wf e -> covered e ->
+  nr v = nr (denote e) -> bcompat (bsh (denote e)) (bsh v) = true -> pub_rmatvec e v == dmm (dtr (denote e)) v.
+Proof. exact rmatvec_correct. Qed.
+
 (* the base-class default _t_matmul (self.mT._matmul(rhs)) computes what the flag-carrying model computes *)
 Theorem C01_t_matmul_default_partial : forall e X, wf e -> covered e -> okrhs (dtr (denote e)) X ->
   mm true e X == mm false (tr e) X.
@@ -55,6 +60,14 @@ Proof. intros e X. exact (mm_true_tr e X). Qed.
 (* _size() of EVERY class (no restriction to [covered]) is the shape of the dense matrix *)
 Theorem C01_size : forall e, wf e -> sz e = (bsh (denote e), nr (denote e), nc (denote e)).
 Proof. exact sz_correct. Qed.
+
+(* the public size accessors of EVERY class: shape / size() (= batch_shape + matrix_shape), dim() / ndimension() and numel()
+   are those of the dense tensor *)
+Theorem C01_size_accessors : forall e, wf e ->
+  pub_shape e = (bsh (denote e), nr (denote e), nc (denote e)) /\
+  pub_dim e = (length (bsh (denote e)) + 2)%nat /\
+  pub_numel e = (bnumel (bsh (denote e)) * nr (denote e) * nc (denote e))%nat.
+Proof. exact accessors_correct. Qed.
 
 (* Kronecker "vec trick": the factor loop of _matmul/_t_matmul computes (K1 (x) ... (x) Kk) X for ANY number of
    factors, any factor maps f that act as matrices K (nested operators), any sizes, batches, column counts *)
@@ -109,6 +122,17 @@ Theorem C01_cat_cols_correct : forall (T : Type) (f : T -> BT -> BT) (D : T -> B
   acts (fun X => dsum_pieces (pieces f len X (x :: ops) 0)) (dcat (map D (x :: ops)) CatCols).
 Proof. intros T f D len. exact (acts_cat_cols f D len). Qed.
 
+(* concatenation along a BATCH dimension (cat_dim < -2): expand the rhs to the output batch shape, narrow it per piece,
+   multiply every piece with its own operator, torch.cat along that dimension = multiply with the concatenated tensor:
+   any number (>= 2) of pieces of any sizes >= 1, any position p of the dimension, any broadcasting right-hand side *)
+Theorem C01_cat_batch_correct : forall (T : Type) (f : T -> BT -> BT) (D : T -> BT) (len : T -> nat) p x ops,
+  (p < length (bsh (D x)))%nat -> (1 <= length ops)%nat ->
+  (forall y, In y (x :: ops) -> acts (f y) (D y) /\ bset (bsh (D y)) p 0%nat = bset (bsh (D x)) p 0%nat /\
+                                nr (D y) = nr (D x) /\ nc (D y) = nc (D x) /\ len y = nth p (bsh (D y)) 0%nat /\ (0 < len y)%nat) ->
+  acts (fun X => dcat (bpieces f len p (dexpand (bcast (bsh (dcat (map D (x :: ops)) (CatBatch p))) (bsh X)) X) (x :: ops) 0) (CatBatch p))
+       (dcat (map D (x :: ops)) (CatBatch p)).
+Proof. intros T f D len. exact (acts_cat_batch f D len). Qed.
+
 (* Kronecker product of diagonal operators: _kron_diag builds the diagonal of the Kronecker product *)
 Theorem C01_kron_diag_correct : forall ds, forallb (fun d => pos (nr d)) ds = true -> pwc (map bsh ds) = true ->
   kronl (map ddiag ds) == ddiag (kron_diag_vec ds).
@@ -125,6 +149,13 @@ Theorem C01_batch_repeat_roundtrip : forall g B rep,
                  brep_back pbs rp Bout (nc X) (fr (g (fr (brep_to_cols pbs rp (nc X) (dexpand Bout X))))))
        (drepeat B rep).
 Proof. exact acts_batchrepeat_square. Qed.
+
+(* BatchRepeat over a RECTANGULAR base (the branch of _matmul that relies on broadcasting: base product, then expand) is right
+   whenever no batch dimension of size > 1 is really repeated (only size-1 / new leading dimensions are) *)
+Theorem C01_batch_repeat_broadcast_correct : forall g B rep,
+  acts g B -> forallb pos (bsh B) = true -> (length (bsh B) <= length rep)%nat -> notile (bsh B) rep = true ->
+  acts (fun X => dexpand (bcast (brep (bsh B) rep) (bsh X)) (g X)) (drepeat B rep).
+Proof. exact acts_batchrepeat_rect. Qed.
 
 (* Mul (root form): (L L^T o R) X = rowsum_a ( L[:,a] o (R (X o L[:,a])) ), any rank of the root, sizes, batches *)
 Theorem C01_mul_root_formula : forall L R g, acts g R -> bsh L = bsh R -> nr L = nr R -> nr R = nc R ->
@@ -176,3 +207,20 @@ Example C01_nonvacuous :
   let X := of_table [2%nat; 3%nat] 4 1 [[[1];[0];[0];[0]]; [[0];[1];[0];[0]]; [[1];[1];[0];[0]]; [[0];[0];[1];[0]]; [[0];[0];[0];[1]]; [[1];[1];[1];[1]]] in
   wf e /\ covered e /\ okrhs (denote e) X.
 Proof. vm_compute. repeat split. Qed.
+
+(* a concatenation along the OUTER of two batch dimensions (pieces of sizes 1 and 2) inside [covered], with a right-hand side
+   that broadcasts along it *)
+Example C01_nonvacuous_cat_batch :
+  let A := of_table [2%nat; 1%nat] 2 2 [[[1; 2]; [3; 4]]; [[0; 1]; [1; 0]]] in
+  let B := of_table [2%nat; 2%nat] 2 1 [[[1]; [2]]; [[3]; [4]]; [[5]; [6]]; [[7]; [8]]] in
+  let e := Cat [Dense A; Toeplitz B] (CatBatch 1) in
+  let X := of_table [1%nat; 1%nat; 2%nat] 2 1 [[[1]; [0]]; [[0]; [1]]] in
+  wf e /\ covered e /\ okrhs (denote e) X.
+Proof. vm_compute. repeat split. Qed.
+
+(* a rectangular base with a size-1 batch dimension repeated 3 times and a new leading dimension of 2: inside [covered] *)
+Example C01_nonvacuous_batch_repeat_rect :
+  let e := BatchRepeat (Dense (of_table [1%nat] 2 3 [[[1; 2; 3]; [4; 5; 6]]])) [3%nat; 2%nat] in
+  let X := of_table [3%nat] 3 1 [[[1]; [0]; [0]]; [[0]; [1]; [0]]; [[0]; [0]; [1]]] in
+  wf e /\ covered e /\ okrhs (denote e) X /\ nr (denote e) <> nc (denote e).
+Proof. vm_compute. repeat split. discriminate. Qed.
